@@ -67,7 +67,13 @@ impl State for S {
                 self.wal = None;
                 "ok".into()
             }
-            ["read"] => match Wal::replay_committed_from_path(self.wal_path()) {
+            ["read"] => match {
+                // a log that was never opened is the empty log (Wal::open would create the file)
+                if !self.wal_path().exists() {
+                    std::fs::File::create(self.wal_path()).expect("create");
+                }
+                Wal::replay_committed_from_path(self.wal_path())
+            } {
                 Ok(txs) => {
                     let ids = if txs.is_empty() { "-".to_string() } else { txs.iter().map(|t| t.txid.to_string()).collect::<Vec<_>>().join(",") };
                     let head = format!("ok {} {}", txs.len(), ids);
